@@ -99,6 +99,8 @@ type Exec struct {
 	digests      map[*ArrObj]*smt.Term
 	signedMsgs   map[*ArrObj]*SignedMsg
 	initDone     map[*ssa.Package]bool
+	merging      bool
+	mergeCellMark int
 }
 
 func (ex *Exec) end(k EndKind, format string, a ...interface{}) {
@@ -253,7 +255,7 @@ func (ex *Exec) choose(conds []*smt.Term) int {
 	}
 	var feas []int
 	for i, c := range conds {
-		if ex.feasible(c) {
+		if (ex.merging && !c.IsFalse()) || (!ex.merging && ex.feasible(c)) {
 			feas = append(feas, i)
 		}
 	}
@@ -462,6 +464,11 @@ func (ex *Exec) callFunction(fn *ssa.Function, args []Value) Value {
 	if ex.P.isTarget(pkgPath) && !strings.Contains(fn.Name(), "vp") {
 		ex.funcs[name] = true
 	}
+	if ex.Ob.mergeSet()[name] {
+		if r, ok := ex.mergedCall(fn, args); ok {
+			return r
+		}
+	}
 	return ex.interpret(fn, args)
 }
 
@@ -563,6 +570,9 @@ func (ex *Exec) interpret(fn *ssa.Function, args []Value) Value {
 					ex.goPanic("nil pointer dereference (store)")
 				}
 				ex.noteAccess(p.C, true)
+				if ex.merging && p.C.ID <= ex.mergeCellMark && p.C.ID != 0 {
+					panic(mergeAbort{"write to a cell older than the merged call"})
+				}
 				ex.store(p.C, ex.get(fr, x.Val))
 			case *ssa.MapUpdate:
 				ex.mapUpdate(ex.get(fr, x.Map), ex.get(fr, x.Key), ex.get(fr, x.Value))
